@@ -177,6 +177,10 @@ static void mudlib_error_handler (const char *err, int catch_flag) {
   int line;
   svalue_t *mret;
 
+  /* the failed evaluation may have been in the middle of an argument list with '...' expansions:
+   * the handler's own code must not inherit that count (restore_context() resets it for the caller) */
+  num_varargs = 0;
+
   m = allocate_mapping (6);
   add_mapping_string (m, "error", err);
   if (current_prog)
